@@ -248,9 +248,14 @@ pub fn c10_memory_phase(ctx: &Ctx, acc: &Accum) -> Option<i32> {
 pub fn backpressure_phase(ctx: &Ctx, acc: &Accum, prop: &str) -> Option<i32> {
     use std::io::Write;
     let limit = 1u32 << 20;
-    let scenarios: Vec<(usize, usize, u8)> = if ctx.quick() { vec![(900 << 10, 12, 0), (300 << 10, 24, 2)] } else { vec![(900 << 10, 24, 0), (300 << 10, 40, 2), (64 << 10, 120, 0), (1000 << 10, 8, 2)] };
-    for (vlen, ngets, workers) in scenarios {
-        let server = match netpipe::start_server(ServerOpts { item_limit: limit, workers: workers as usize, ..ServerOpts::default() }) {
+    // (value bytes, pipelined gets, runtime workers, server timeout s, pause before reading ms)
+    let scenarios: Vec<(usize, usize, u8, u32, u64)> = if ctx.quick() {
+        vec![(900 << 10, 12, 0, 60, 300), (300 << 10, 24, 2, 60, 300), (512 << 10, 16, 0, 1, 1600)]
+    } else {
+        vec![(900 << 10, 24, 0, 60, 300), (300 << 10, 40, 2, 60, 300), (64 << 10, 120, 0, 60, 300), (1000 << 10, 8, 2, 60, 300), (512 << 10, 32, 0, 1, 1600), (512 << 10, 32, 2, 1, 2500)]
+    };
+    for (vlen, ngets, workers, timeout_secs, pause_ms) in scenarios {
+        let server = match netpipe::start_server(ServerOpts { item_limit: limit, workers: workers as usize, timeout_secs, ..ServerOpts::default() }) {
             Ok(s) => s,
             Err(e) => {
                 acc.note(format!("back-pressure phase skipped: {}", e));
@@ -279,8 +284,9 @@ pub fn backpressure_phase(ctx: &Ctx, acc: &Accum, prop: &str) -> Option<i32> {
         if c.sock.write_all(&pipe).is_err() {
             continue;
         }
-        // let the server run into the full socket buffers (not a correctness signal, only makes the case non-trivial)
-        std::thread::sleep(Duration::from_millis(300));
+        // let the server run into the full socket buffers - with the 1 s server timeout for longer than that
+        // timeout (not a correctness signal: it only decides which situation is exercised)
+        std::thread::sleep(Duration::from_millis(pause_ms));
         let done = c.read_until(Duration::from_secs(30), |c| c.has_opaque(netpipe::SENTINEL) || c.malformed.is_some());
         let mut problem: Option<String> = None;
         if let Some(m) = &c.malformed {
@@ -307,12 +313,12 @@ pub fn backpressure_phase(ctx: &Ctx, acc: &Accum, prop: &str) -> Option<i32> {
                 }
             }
         }
-        acc.record_enum(hash_of(&(vlen, ngets, workers)), true, &["backpressure"], || json!({"value_bytes": vlen, "pipelined_gets": ngets, "workers": workers}));
+        acc.record_enum(hash_of(&(vlen, ngets, workers, timeout_secs)), true, &["backpressure"], || json!({"value_bytes": vlen, "pipelined_gets": ngets, "workers": workers, "server_timeout_s": timeout_secs, "pause_ms": pause_ms}));
         c.reset_close();
         if let Some(pm) = problem {
             let fi = FailInfo {
                 clause: "backpressure".into(),
-                msg: format!("[{} pipelined gets of a {} byte value, read only after all were sent] {}", ngets, vlen, pm),
+                msg: format!("[{} pipelined gets of a {} byte value, read only {} ms after all were sent, server timeout {} s] {}", ngets, vlen, pause_ms, timeout_secs, pm),
                 signature: "backpressure".into(),
                 detail: json!({"value_bytes": vlen, "pipelined_gets": ngets}),
             };
@@ -407,4 +413,76 @@ pub fn c10_socket_phase(ctx: &Ctx, acc: &Accum) -> Option<i32> {
 
 pub fn c10_socket_replay(case: &StreamCase) -> Option<FailInfo> {
     c10_socket_case(case).fail
+}
+
+
+// ------------------------------------------------------------------ a busy connection is not an idle one
+
+/// Server receive timeout 1 s. One connection sends a request every 150 ms for 2.6 s (loud or
+/// quiet-only traffic). Every request must be executed (and every loud one answered): the idle
+/// timeout applies to idleness, not to the age of a connection and not to silence of the server.
+pub fn active_connection_phase(ctx: &Ctx, acc: &Accum, quiet_only: bool) -> Option<i32> {
+    use std::io::Write;
+    for workers in [0usize, 2] {
+        let server = match netpipe::start_server(ServerOpts { timeout_secs: 1, workers, ..ServerOpts::default() }) {
+            Ok(s) => s,
+            Err(e) => {
+                acc.note(format!("active-connection phase skipped: {}", e));
+                return Some(EXIT_OK);
+            }
+        };
+        let mut c = match Client::connect(server.port) {
+            Ok(c) => c,
+            Err(_) => continue,
+        };
+        let _ = c.sock.set_nonblocking(false);
+        let rounds = 18usize;
+        let mut problem: Option<String> = None;
+        for i in 0..rounds {
+            let key = format!("act{}", i).into_bytes();
+            let mut batch = vec![];
+            if quiet_only {
+                wire::store(wire::SETQ, &key, b"v", 1, 0, i as u32, 0).write_to(&mut batch);
+                wire::get(wire::GETQ, b"never-stored", 1000 + i as u32).write_to(&mut batch);
+            } else {
+                wire::store(wire::SET, &key, b"v", 1, 0, i as u32, 0).write_to(&mut batch);
+            }
+            if c.sock.write_all(&batch).is_err() {
+                problem = Some(format!("round {} ({} ms after connecting): the server had closed the busy connection", i, i * 150));
+                break;
+            }
+            if !quiet_only && !c.read_until(Duration::from_secs(5), |c| c.has_opaque(i as u32)) {
+                problem = Some(format!("round {} ({} ms after connecting): set got no response (eof={}, reset={})", i, i * 150, c.eof, c.reset));
+                break;
+            }
+            std::thread::sleep(Duration::from_millis(150));
+        }
+        if problem.is_none() {
+            // everything that was sent is stored
+            let _ = c.sock.write_all(&wire::simple(wire::NOOP, netpipe::SENTINEL).bytes());
+            let alive = c.read_until(Duration::from_secs(5), |c| c.has_opaque(netpipe::SENTINEL));
+            let missing: Vec<usize> = (0..rounds).filter(|i| server.side_get(format!("act{}", i).as_bytes()).is_none()).collect();
+            if !missing.is_empty() {
+                problem = Some(format!(
+                    "requests sent at a steady 150 ms pace on one connection were not executed: items {:?} of {} are missing (connection still answering: {})",
+                    missing, rounds, alive
+                ));
+            } else if !alive {
+                problem = Some("after 2.7 s of steady traffic the connection no longer answers".into());
+            }
+        }
+        acc.record_enum(hash_of(&("active", workers, quiet_only)), true, &["busy_connection_vs_idle_timeout"], || json!({"workers": workers, "quiet_only": quiet_only, "rounds": rounds}));
+        c.reset_close();
+        if let Some(pm) = problem {
+            let fi = FailInfo {
+                clause: "busy_connection_dropped".into(),
+                msg: format!("[server receive timeout 1 s, {} traffic every 150 ms, runtime workers {}] {}", if quiet_only { "quiet-only" } else { "loud" }, workers, pm),
+                signature: "busy_connection_dropped".into(),
+                detail: json!({"workers": workers, "quiet_only": quiet_only}),
+            };
+            report_violation(ctx, "active_connection", &json!({"workers": workers, "quiet_only": quiet_only}), &fi);
+            return Some(EXIT_VIOLATION);
+        }
+    }
+    Some(EXIT_OK)
 }
